@@ -98,7 +98,7 @@ func (s *sched) block(fr *frame, pred func() bool, what string) {
 			s.deadlock(fr)
 		}
 		k := 0
-		if len(others) > 1 && !s.i.ps.schedFixed {
+		if len(others) > 1 && !s.i.ps.schedFixed && !s.i.ps.schedBlockFixed {
 			k = s.i.choose(len(others), "sched-block")
 		}
 		s.switchTo(g, others[k])
@@ -175,7 +175,7 @@ func (s *sched) exit(g *goroutine) {
 		return
 	}
 	k := 0
-	if len(others) > 1 && !s.i.ps.schedFixed {
+	if len(others) > 1 && !s.i.ps.schedFixed && !s.i.ps.schedBlockFixed {
 		defer func() {
 			if r := recover(); r != nil {
 				if !s.dead {
